@@ -73,6 +73,12 @@ func tagValue(rule string, path string) string {
 		return d
 	case strings.HasPrefix(rule, "const:"):
 		return rule[len("const:"):]
+	case rule == "parity":
+		// "even" / "odd" after the first number in the base name: two groups
+		d := regexp.MustCompile(`[0-9]+`).FindString(base)
+		n := 0
+		fmt.Sscanf(d, "%d", &n)
+		return []string{"even", "odd"}[n%2]
 	case rule == "noext":
 		// the whole base name without its last extension: values with dots, dashes and underscores in them
 		return strings.TrimSuffix(base, filepath.Ext(base))
